@@ -22,7 +22,7 @@ def run(tier, rep):
         merge_gosym(rep, res, 'lexical errors: every text of <= %d bytes: the error names file:line:column of the first character of the stray or unterminated element' % N)
         c05.handle_violations(rep, res, files, sc, prop='C20')
         res = run_gosym(c05.base_cfg(files, 'harnessScanInvalid', tier, concretize=[c05.PKG + '.advanceDFA']), sc, 'invalid', timeout=4 * 3600)
-        merge_gosym(rep, res, 'bytes that are not UTF-8: every ASCII text of <= %d bytes followed by a byte >= 0x80 of each kind (80, BF, C0, C3, E2, F0, F5, FF): complete tokens first, then an error naming the position of that byte' % (N - 1))
+        merge_gosym(rep, res, 'bytes that are not UTF-8: every ASCII text of <= %d bytes followed by every byte >= 0x80: complete tokens first, then an error naming the position of that byte' % (N - 1))
         c05.handle_violations(rep, res, files, sc, prop='C20')
         rep.assumptions += [
             'first offending token = where the reference parser (documentation + precedence list) gets stuck; that everything before it is a viable prefix follows from the table equality of C04/S1 and the LALR correct-prefix property (not re-decided here)',
